@@ -89,6 +89,8 @@ type Library struct {
 	Files  []string
 	LemmaOpts map[string]*LemmaOpt
 	Impls  []implDirective
+	// OpenFindings: "function/label" of the clauses named by open entries of known_findings.json
+	OpenFindings map[string]bool
 }
 
 // implements <iface> by <concrete> recv <name> as <expr>: every method contract <concrete>.M (proved) is also the
@@ -105,7 +107,7 @@ type LemmaOpt struct {
 }
 
 func newLibrary() *Library {
-	return &Library{Funcs: map[string]*FuncContract{}, Specs: map[string]*SpecFunc{}, Ghosts: map[string]string{}, GhostPkg: map[string]string{}, AxPkg: map[*Clause]string{}, LemmaOpts: map[string]*LemmaOpt{}}
+	return &Library{Funcs: map[string]*FuncContract{}, Specs: map[string]*SpecFunc{}, Ghosts: map[string]string{}, GhostPkg: map[string]string{}, AxPkg: map[*Clause]string{}, LemmaOpts: map[string]*LemmaOpt{}, OpenFindings: map[string]bool{}}
 }
 
 func (L *Library) loadAll(repo string, specDir string) error {
